@@ -215,11 +215,24 @@ type Prop[C any] struct {
 // code under test into a failing verdict (with the stack), so that it gets a replay file
 // and shrinks like any other failure. Panics that never touched go-sse are harness bugs
 // and propagate (the driver then reports the run as inconclusive).
+// inCodeUnderTest reports whether a stack passes through go-sse: by package path, or - for
+// frames of inlined functions and closures, which are named after their caller - by the source
+// file's directory (/repo, or the scratch worktree given through VERIF_REPO_OVERRIDE).
+func inCodeUnderTest(stack string) bool {
+	if strings.Contains(stack, "github.com/tmaxmax/go-sse") || strings.Contains(stack, "\t/repo/") {
+		return true
+	}
+	if alt := os.Getenv("VERIF_REPO_OVERRIDE"); alt != "" && strings.Contains(stack, "\t"+alt+"/") {
+		return true
+	}
+	return false
+}
+
 func guarded[C any](t *testing.T, p Prop[C], c C) (v *Verdict) {
 	defer func() {
 		if r := recover(); r != nil {
 			stack := string(debug.Stack())
-			if !strings.Contains(stack, "github.com/tmaxmax/go-sse") {
+			if !inCodeUnderTest(stack) {
 				panic(r)
 			}
 			v = &Verdict{}
@@ -233,7 +246,7 @@ func trimStack(s string) string {
 	lines := strings.Split(s, "\n")
 	var out []string
 	for i := 0; i+1 < len(lines) && len(out) < 24; i++ {
-		if strings.Contains(lines[i], "go-sse") || strings.Contains(lines[i], "verif/harness") {
+		if strings.Contains(lines[i], "go-sse") || strings.Contains(lines[i], "verif/harness") || strings.Contains(lines[i+1], "/repo/") {
 			out = append(out, strings.TrimSpace(lines[i])+" "+strings.TrimSpace(lines[i+1]))
 		}
 	}
@@ -452,7 +465,7 @@ func guardedFuzz[C any](p Prop[C], c C) (v *Verdict) {
 	defer func() {
 		if r := recover(); r != nil {
 			stack := string(debug.Stack())
-			if !strings.Contains(stack, "github.com/tmaxmax/go-sse") {
+			if !inCodeUnderTest(stack) {
 				panic(r)
 			}
 			v = &Verdict{}
